@@ -227,7 +227,31 @@ fn namespace_tier(ctx: &Ctx, menu: &[Entry], single: &[(Vec<(String, String)>, V
   seqs.push((0..k).collect());
   seqs.push((0..k).rev().collect());
   if !q { for a in 0..k { for b in 0..k { if a != b { seqs.push(vec![a, b]); } } } } else { seqs.push(vec![0, 2]); seqs.push(vec![2, 0]); seqs.push(vec![8, 1]); seqs.push(vec![5, 0]); seqs.push(vec![12, 3, 1]); for b in 10..k { seqs.push(vec![0, b]); seqs.push(vec![2, b]); seqs.push(vec![7, b]); } }
-  let case_sets: Vec<&Vec<&'static str>> = if q { sets.iter().take(6).collect() } else { sets.iter().collect() };
+  let mut case_sets: Vec<&Vec<&'static str>> = if q { sets.iter().take(6).collect() } else { sets.iter().collect() };
+  // The tool READS the device list from a file: a non-ASCII name must survive wherever it falls in that file.  Each of the
+  // following sequences puts the entry "name-unicode" behind one filler entry whose name is padded so that the first byte of
+  // its 'Ü' (2 bytes) or of its '⌨' (3 bytes) lands 1 or 2 bytes before a multiple of 4096 (read-buffer sizes are multiples
+  // of it); the excluded-by-name and the not-excluded selection must be what the entry alone gives.
+  let uni_set: &Vec<&'static str> = sets.iter().find(|s| s.len() == 1 && s[0] == "*Ü*").expect("glob *Ü* in the menu");
+  if !case_sets.iter().any(|s| *s == uni_set) { case_sets.push(uni_set); }
+  let mut menu: Vec<Entry> = menu.to_vec();
+  let mut single: Vec<(Vec<(String, String)>, Vec<(String, String, bool)>)> = single.to_vec();
+  let uni = menu.iter().position(|e| e.tag == "name-unicode").expect("name-unicode entry");
+  let base = entry("filler", 40, Some(""), Some("/devices/LNXSYSTM:00/LNXPWRBN:00/input/input40"), Some("3"), Some(POWER_KEYS)).text.len();
+  for boundary in [4096usize, 8192, 12288, 16384] { for (ch, back) in [('Ü', 1usize), ('⌨', 1), ('⌨', 2)] {
+    let off = menu[uni].text.find(ch).unwrap();
+    let want = boundary - back; // byte offset of the character's first byte in the whole file
+    if want < base + off { continue; }
+    let pad = want - base - off;
+    let name: &'static str = Box::leak(format!("{}", "F".repeat(pad)).into_boxed_str());
+    let e = entry("filler", 40, Some(name), Some("/devices/LNXSYSTM:00/LNXPWRBN:00/input/input40"), Some("3"), Some(POWER_KEYS));
+    debug_assert_eq!(e.text.len() + off, want);
+    single.push((crate::keyboard_listing::verif_extract_keyboards(&e.text), crate::keyboard_listing::verif_extract_input_devices(&e.text)));
+    menu.push(e);
+    seqs.push(vec![menu.len() - 1, uni]);
+  } }
+  let menu = &menu[..]; let single = &single[..];
+  let k = menu.len();
   let spec = json!({
     "bin": bin,
     "entries": menu.iter().map(|e| json!({"tag": e.tag, "text": e.text, "sysfs": e.sysfs, "event": e.event, "name": e.name})).collect::<Vec<_>>(),
